@@ -12,6 +12,7 @@ type ProtocolDetectConn struct {
 	net.Conn
 	major, minor uint8  // 协议版本
 	recordHeader []byte // 客户端Hello消息的记录层协议头部
+	headerRead   int    // recordHeader 中已经读到的字节数
 }
 
 // protocolVersion 连接所使用的协议版本
@@ -32,10 +33,24 @@ func (c *ProtocolDetectConn) ReadFirstHeader() error {
 	//  uint16          length;							// 2 Byte
 	//  opaque          fragment[TLSPlaintext.length];  // length Byte
 	//}
-	c.recordHeader = make([]byte, 5)
-	_, err := io.ReadFull(c.Conn, c.recordHeader)
+	// 读取可能被读超时等临时错误打断：已经读到的字节保留下来，下次调用接着读，
+	// 否则重试时会丢掉这些字节，后面的协议栈看到的就不是完整的字节流了。
+	if c.recordHeader == nil {
+		c.recordHeader = make([]byte, 5)
+		c.headerRead = 0
+	}
+	for c.headerRead < len(c.recordHeader) {
+		n, err := c.Conn.Read(c.recordHeader[c.headerRead:])
+		c.headerRead += n
+		if err != nil && c.headerRead < len(c.recordHeader) {
+			if err == io.EOF && c.headerRead > 0 {
+				err = io.ErrUnexpectedEOF
+			}
+			return err
+		}
+	}
 	c.major, c.minor = c.recordHeader[1], c.recordHeader[2]
-	return err
+	return nil
 }
 
 func (c *ProtocolDetectConn) Read(b []byte) (n int, err error) {
